@@ -235,7 +235,7 @@ func c17Store(c *core.Ctx, ctl *sched.Controller, only *storeCase) {
 			// (2) separate gateways: every interleaving (two processes) or a seeded sample of them
 			o := tlc.Opts{Module: "IamStore", CfgText: storeCfg(scn, false, 0, true, true, false), Workers: 1}
 			if len(storeScenarios[scn]) > 2 {
-				o.Simulate = fmt.Sprintf("num=%d", c.Pick(150, 1500))
+				o.Simulate = fmt.Sprintf("num=%d", c.Pick(80, 1500))
 				o.Depth = 60
 				o.Seed = c.Seed + 17
 			}
@@ -264,7 +264,7 @@ func c17Store(c *core.Ctx, ctl *sched.Controller, only *storeCase) {
 			rng := rand.New(rand.NewSource(c.Seed))
 			rng.Shuffle(len(behs), func(i, j int) { behs[i], behs[j] = behs[j], behs[i] })
 			sort.SliceStable(behs, func(i, j int) bool { return storeHarm(behs[i]) > storeHarm(behs[j]) })
-			if max := c.Pick(120, 1200); len(behs) > max {
+			if max := c.Pick(60, 1200); len(behs) > max {
 				behs = behs[:max]
 			}
 		}
@@ -276,7 +276,7 @@ func c17Store(c *core.Ctx, ctl *sched.Controller, only *storeCase) {
 				}
 				if only == nil && mode == "one-gateway" {
 					// the schedules that do harm between gateways, and a few of the others
-					if none >= c.Pick(20, 200) || (storeHarm(b) == 0 && none >= c.Pick(5, 50)) {
+					if none >= c.Pick(12, 200) || (storeHarm(b) == 0 && none >= c.Pick(4, 50)) {
 						continue
 					}
 					none++
